@@ -1008,7 +1008,7 @@ def c09(tier):
 
 @check("C10")
 def c10(tier):
-    return broker_check("C10", tier, [("SessSpec", "cover", 6, 7, "mockSuccess"), ("Sess1Spec", "paths", 6, 7, "mockSuccess"), ("Sess1LastSpec", "paths", 8, 10, "mockSuccess")], {"C10", "C01", "C07"},
+    return broker_check("C10", tier, [("SessSpec", "cover", 6, 7, "mockSuccess"), ("Sess1Spec", "paths", 6, 7, "mockSuccess"), ("Sess1LastSpec", "paths", 8, 10, "mockSuccess"), ("SessHalfSpec", "paths", 8, 9, "mockSuccess")], {"C10", "C01", "C07"},
                         "configuration session: connect (CleanSession 0/1) / subscribe / unsubscribe / DISCONNECT / cut over two client ids and two slots, probe "
                         "publishes; SessionPresent and deliveries to restored subscriptions compared.", frag_item=1, pipe_item=1)
 
